@@ -23,7 +23,7 @@ ASSUMPTIONS = [
     "an operand-level $not against an instruction without operands does not match (there is no operand to consume)",
     "listings <= 12 instructions",
 ]
-POSITIONS = ["leading", "inner", "trailing", "repeated", "nested-or", "nested-and", "nested-any", "operand", "operand", "double", "not-not"]
+POSITIONS = ["leading", "inner", "trailing", "repeated", "nested-or", "nested-and", "nested-any", "operand", "operand", "double", "not-not", "captures"]
 ARGS = ["decoy", "decoy", "site", "next", "group-match", "group-first-only", "item-ops"]
 MUTATORS = ["none", "none", "none", "insert", "delete", "swap", "replace-copy", "extend-mn"]
 FLOORS = {f"pos={p}": 0.05 for p in set(POSITIONS)}
@@ -50,6 +50,8 @@ def _names_ok(node, operand=False):
                     return False
                 if isinstance(v, list) and not _names_ok(v, True):
                     return False
+        return True
+    if node in ("&ya", "&yb"):
         return True
     return lit_ok(str(node), operand=operand)
 
@@ -135,6 +137,16 @@ def cases(draw):
             s = j - 1
         elif pos == "inner":
             s = draw(st.integers(i + 1, j - 2)) if wlen >= 3 else i
+        elif pos == "captures":
+            # the argument of the $not DEFINES a capture, the item after it defines and reuses another one: what is (not) bound
+            # inside the negation must not disturb the numbering of the captures outside it
+            s = draw(st.integers(i, j - 2))
+            r1 = draw(st.sampled_from(["%rax", "%rbx", "%rsi", "%r8"]))
+            r2 = r1 if draw(st.integers(0, 2)) else draw(st.sampled_from(["%rcx", "%rdx"]))
+            L[s + 1] = [L[s + 1][0], "mov", [r1, r2], [r1, r2]]
+            if draw(st.integers(0, 3)) == 0:
+                L[s] = [L[s][0], "push", ["%rcx"], ["%rcx"]]  # the negated item matches here
+            NV = norm_view(L)
         else:
             s = draw(st.integers(i, j - 1))
         x = make_arg(draw, arg, NV, s, full)
@@ -144,7 +156,10 @@ def cases(draw):
             # instruction at which X matches (not the whole span of X)
             notnode = {"$not": [{"$not": [x]}]}
         descs = {k: describe_inst(draw, NV[k], full) for k in range(i, j)}
-        if pos == "repeated":
+        if pos == "captures":
+            x = draw(st.sampled_from([{"push": ["&ya"]}, {"$and": [{"push": ["&ya"]}, {"pop": ["&ya"]}]}, {"push": ["&ya"]}]))
+            pattern = [descs[k] for k in range(i, s)] + [{"$not": [x]}, {"mov": ["&yb", "&yb"]}] + [descs[k] for k in range(s + 2, j)]
+        elif pos == "repeated":
             # a run of instructions each consumed by one repetition of the $not
             e = draw(st.integers(s + 1, j))
             t = e - s
